@@ -4,11 +4,13 @@ import (
 	"bytes"
 	"fmt"
 	"sort"
+	"strings"
 	"time"
 
 	enc "github.com/named-data/ndnd/std/encoding"
 	sface "github.com/named-data/ndnd/std/engine/face"
 	"verif/mc/sched"
+	"verif/shim/vsched"
 )
 
 // Interleaving pass for the sending side of the application stream face (C11.send).
@@ -165,8 +167,17 @@ func sendPass(thorough bool) (map[string]any, []sendFound, error) {
 	var stats []sched.Stats
 	execs, points := 0, 0
 	complete := true
+	var scns []sched.Scenario
 	for _, sh := range shapes {
-		scn := sendScenario(fmt.Sprintf("send%v", sh), sh)
+		scns = append(scns, sendScenario(fmt.Sprintf("send%v", sh), sh))
+	}
+	if _, err := reopenListener(); err != nil {
+		return nil, nil, fmt.Errorf("cannot listen on a Unix socket for Open(): %v", err)
+	}
+	ro := reopenScenarios(thorough)
+	scns = append(scns, ro...)
+	defer func() { vsched.Spawn = nil }()
+	for _, scn := range scns {
 		st, err := sched.Explore(scn, bound, deadline, func(f sched.Found) {
 			if seen[f.Clause+f.Key] {
 				return
@@ -182,7 +193,7 @@ func sendPass(thorough bool) (map[string]any, []sendFound, error) {
 		points += st.Points
 		complete = complete && st.Complete
 	}
-	return map[string]any{"scenarios": len(shapes), "wires_segments_per_thread": fmt.Sprint(shapes), "preemption_bound": bound,
+	return map[string]any{"scenarios": len(scns), "close_reopen_scenarios": len(ro), "wires_segments_per_thread": fmt.Sprint(shapes), "preemption_bound": bound,
 		"schedules_executed": execs, "scheduling_points": points, "complete_within_bound": complete, "per_scenario": stats,
 		"scheduling_points_are": "every sync.Mutex / atomic.Bool operation of std/engine/face (shimmed) and every Write on the fake connection"}, found, nil
 }
@@ -203,6 +214,42 @@ func sendShapes(thorough bool) [][][]int {
 
 // replaySend re-executes one schedule of one scenario.
 func replaySend(name string, schedule []int) int {
+	if strings.HasPrefix(name, "reopen") {
+		if _, err := reopenListener(); err != nil {
+			fmt.Printf("CHECK-ERROR: %v\n", err)
+			return 2
+		}
+		defer func() { vsched.Spawn = nil }()
+		for _, scn := range reopenScenarios(true) {
+			if scn.Name != name {
+				continue
+			}
+			e, st, err := sched.Replay(scn, schedule)
+			if err != nil {
+				fmt.Printf("CHECK-ERROR: %v\n", err)
+				return 2
+			}
+			var fs []sched.Finding
+			switch {
+			case e.Crash != "":
+				fs = append(fs, sched.Finding{Clause: "C11.reopen", Key: "panic " + e.Crash})
+			case e.Dead:
+				fs = append(fs, sched.Finding{Clause: "C11.reopen", Key: "deadlock"})
+			default:
+				fs = scn.Check(st, e)
+			}
+			rs := st.(*reopenState)
+			fmt.Printf("scenario %s, schedule %v, %d deliveries, notes %v\n", name, schedule, len(rs.delivered), rs.notes)
+			for _, f := range fs {
+				fmt.Printf("REPLAY property=C11 clause=%s key=%q :: %s\n", f.Clause, f.Key, f.Detail)
+			}
+			if len(fs) == 0 {
+				fmt.Println("REPLAY property=C11: no violation")
+				return 0
+			}
+			return 1
+		}
+	}
 	for _, sh := range sendShapes(true) {
 		scn := sendScenario(fmt.Sprintf("send%v", sh), sh)
 		if scn.Name != name {
